@@ -28,12 +28,16 @@ const c02Dom = int64(1) << 36
 func c02Combo(name string, cat cbc.Code, rich bool) *Combo {
 	c := &Combo{Category: cat}
 	if name == "l0.a" {
-		// the first line's combo is the fixed reference row (21 %, extension v1, optional surcharge);
+		// the first line's combo is the reference row (21 % with optional surcharge, or exempt; extension v1);
 		// the second line's combo ranges over every attribute combination relative to it (and in the thorough
 		// tier a third line over a smaller set of combinations)
+		c.Ext = Extensions{"k": "v1"}
+		if vrt.Choice(name+".exempt", 2) == 1 {
+			// an exempt reference row: exempt rows of different country or extensions must stay apart too
+			return c
+		}
 		p := num.MakePercentage(210, 3)
 		c.Percent = &p
-		c.Ext = Extensions{"k": "v1"}
 		if vrt.Choice(name+".hassur", 2) == 1 {
 			s := num.MakePercentage(52, 3)
 			c.Surcharge = &s
